@@ -4,7 +4,8 @@ suite's own writers (tests/mkdiskdump, mkelf, mklkcd, mksadump).
 All files carry the same memory image: page 0 (pattern), page 1 (string "linux"), pages 3-4 (a
 string of 4112 bytes crossing the page boundary),
 a three-level x86-64 page table at 0x2e10000.. mapping virtual 0 to the 2 MiB page at
-0x2000000 whose first bytes are 01 23 45 67 89 ab cd ef (the layout of the suite's
+0x2000000 whose first bytes are 01 23 45 67 89 ab cd ef and which holds a struct
+new_utsname at offset 0x100 (kernel virtual 0x100 through the page table) (the layout of the suite's
 multixlat test)."""
 import os
 import subprocess
@@ -18,7 +19,9 @@ PAGES = [
     (0x1000, "6c 69 6e 75 78 00\n00*4090"),
     (0x3000, "41*4096"),                     # a string that starts here runs into the next page
     (0x4000, "42*16\n00*4080"),
-    (0x2000000, "01 23 45 67 89 ab cd ef\n00*4088"),
+    (0x2000000, "01 23 45 67 89 ab cd ef\n00*248\n" + "".join(
+        " ".join("%02x" % c for c in f.encode().ljust(65, b"\0")) + "\n"
+        for f in ("Linux", "res-node", "5.6.7-res", "#1 SMP res", "x86_64", "(none)")) + "00*%d" % (4096 - 256 - 6 * 65)),
     (0x2e10000, "0000000002e11067 0000000000000000*511"),
     (0x2e11000, "0000000002e12067 0000000000000000*511"),
     (0x2e12000, "00000000020001e1 0000000000000000*511"),
